@@ -49,13 +49,24 @@ func genEvolve(h *vh.H, i int) string {
 		}
 		switch c.Kind {
 		case "fields", "oneof":
-			edits = append(edits, &j5sgen.Edit{Kind: "appendfield", FileIdx: c.FileIdx, Path: c.Path, Prop: g.FreshProp(c.Kind == "oneof", k)})
+			pr := g.FreshProp(c.Kind == "oneof", k)
+			if c.Keys && h.Chance(1, 2) {
+				// a further primary key appended to a hand-written KEYS object (after its non-primary keys)
+				pr = &j5sgen.Prop{Name: fmt.Sprintf("zzPrimary%d", k), Field: &j5sgen.Field{Kind: j5sgen.FKey, Fmt: vh.Pick(h, []string{"none", "uuid", "id62"}),
+					EntKey: &j5sgen.EntKey{Kind: "primary", Primary: true}}}
+			}
+			edits = append(edits, &j5sgen.Edit{Kind: "appendfield", FileIdx: c.FileIdx, Path: c.Path, Prop: pr})
 		case "enum":
 			opt := fmt.Sprintf("ZZ_NEW%d", k)
 			if h.Chance(1, 6) {
 				opt = fmt.Sprintf("ZZ%d_UNSPECIFIED", k) // appended to an empty enum this used to replace the implicit zero value
 			}
-			edits = append(edits, &j5sgen.Edit{Kind: "appendoption", FileIdx: c.FileIdx, Path: c.Path, Option: opt})
+			ed := &j5sgen.Edit{Kind: "appendoption", FileIdx: c.FileIdx, Path: c.Path, Option: opt}
+			if !strings.HasSuffix(opt, "UNSPECIFIED") && h.Chance(1, 3) {
+				// the new option states a number: one already handed out by position, the next one, or one far off
+				ed.OptNum = vh.Pick(h, []int32{1, 1, 2, 2, 3, 4, 6, 30})
+			}
+			edits = append(edits, ed)
 		}
 	}
 	style := uint64(0)
